@@ -827,9 +827,8 @@ def _read_asn1_integer(
         # Coverage is skipped because branch will not occur with no loop
         for i in range(len(b_int) - 1, -1, -1):  # pragma: nocover
             if b_int[i] == 0xFF:
-                b_int[i - 1] += 1
+                # Carry the addition over to the next (higher) octet.
                 b_int[i] = 0
-                break
 
             else:
                 b_int[i] += 1
